@@ -1,0 +1,57 @@
+/**
+ * Schedule points used by the external verification harness.
+ *
+ * Compiled out unless FASTSCAPELIB_VERIF_HOOKS is defined: in that case each
+ * point calls a test-installed callback (if any) with the site number, the
+ * object, an index and an auxiliary address.
+ */
+#ifndef FASTSCAPELIB_UTILS_VERIF_HOOKS_HPP
+#define FASTSCAPELIB_UTILS_VERIF_HOOKS_HPP
+
+#ifdef FASTSCAPELIB_VERIF_HOOKS
+
+#include <atomic>
+#include <cstddef>
+
+namespace fastscapelib
+{
+    namespace verif
+    {
+        using hook_fn = void (*)(int site, const void* obj, std::size_t idx, const void* aux);
+
+        inline std::atomic<hook_fn>& hook()
+        {
+            static std::atomic<hook_fn> h{ nullptr };
+            return h;
+        }
+
+        // thread pool: caller side
+        constexpr int c_spawn = 1, c_store = 2, c_load = 3, c_spin_pause = 5, c_prelock = 6,
+                      c_locked = 7, c_notify = 8, c_stopflag = 9, c_joinall = 10, c_reinit = 11,
+                      c_publish = 12, c_return = 13, c_setpause = 14;
+        // thread pool: worker loop and pause job
+        constexpr int w_loop = 20, w_job = 21, w_done = 22, w_endloop = 23, w_exit = 24,
+                      k_prelock = 30, k_locked = 31, k_prewait = 32, k_woken = 33, k_end = 34;
+        // grid: neighbors look-up (storage obtained, not yet read)
+        constexpr int g_neighbors = 40;
+    }
+}
+
+#define FSL_VERIF_POINT(site, obj, idx, aux)                                                       \
+    do                                                                                             \
+    {                                                                                              \
+        auto fsl_verif_h_ = ::fastscapelib::verif::hook().load(std::memory_order_acquire);         \
+        if (fsl_verif_h_)                                                                          \
+            fsl_verif_h_(site, obj, static_cast<std::size_t>(idx), aux);                           \
+    } while (0)
+
+#else
+
+#define FSL_VERIF_POINT(site, obj, idx, aux)                                                       \
+    do                                                                                             \
+    {                                                                                              \
+    } while (0)
+
+#endif
+
+#endif  // FASTSCAPELIB_UTILS_VERIF_HOOKS_HPP
